@@ -91,12 +91,29 @@ def render_functions(model):
             # compile-phase methods (parse ...) are not render code
             continue
         out.append(fi)
-    # all non-constructor methods of tag classes
+    # all non-constructor methods of tag classes -- except helpers that only
+    # constructors call (a phase split off __init__ is construction code)
+    callers = {}
+    for a, bs in cg.edges.items():
+        for b in bs:
+            callers.setdefault(b, set()).add(a)
+    ctor_only = {w for w, f in cg.funcs.items() if f.name == '__init__'}
+    changed = True
+    while changed:
+        changed = False
+        for w, f in cg.funcs.items():
+            if w in ctor_only or (w in reach and w not in comp):
+                continue
+            cs = callers.get(w, set()) - {w}
+            if cs and all(c in ctor_only for c in cs):
+                ctor_only.add(w)
+                changed = True
     sc = shared_classes(model)
     for kind, c in sc.values():
         if kind == 'tag':
             for m in c.methods.values():
-                if m.name not in API_MUTATORS and m not in out:
+                if m.name not in API_MUTATORS and m not in out and \
+                        m.where not in ctor_only:
                     out.append(m)
     return out
 
